@@ -223,6 +223,7 @@ fn report_json(rep: &RunReport, want_trace: bool) -> serde_json::Map<String, Val
     m.insert("outcome".into(), outcome);
     m.insert("final_depths".into(), json!(rep.final_depths));
     m.insert("errors".into(), json!(rep.errors));
+    m.insert("error_steps".into(), json!(rep.error_steps));
     if want_trace {
         let t: Vec<Value> = rep
             .insns
